@@ -4,16 +4,19 @@ use crate::rng::Rng;
 pub mod btree;
 pub mod cache;
 pub mod crash;
+pub mod ddl;
 pub mod fuzz;
 pub mod hist;
 pub mod pager;
 pub mod parse;
 pub mod plan;
 pub mod pool;
+pub mod reopen;
 pub mod sql;
 pub mod threads;
 pub mod tuple;
 pub mod value;
+pub mod vacuum;
 pub mod wal;
 pub mod wire;
 
@@ -65,6 +68,9 @@ pub fn get(name: &str) -> Option<Box<dyn Engine>> {
         "value" => Some(Box::new(value::ValueEngine)),
         "wal" => Some(Box::new(wal::WalEngine)),
         "wire" => Some(Box::new(wire::WireEngine)),
+        "vacuum" => Some(Box::new(vacuum::VacuumEngine)),
+        "reopen" => Some(Box::new(reopen::ReopenEngine)),
+        "ddl" => Some(Box::new(ddl::DdlEngine)),
         _ => None,
     }
 }
@@ -87,6 +93,9 @@ pub fn all_generated() -> Vec<(&'static str, String)> {
         value::generated(),
         wal::generated(),
         wire::generated(),
+        vacuum::generated(),
+        reopen::generated(),
+        ddl::generated(),
     ]
     .into_iter()
     .flatten()
